@@ -123,7 +123,8 @@ include ok hfuel hperm inv hm hget hal he hb q hc hd hs
 theorem seg_data (hn : (rd.h.mtype == cfg.mtSetName) = false) (hr : (rd.h.mtype == cfg.mtModuleReady) = false) :
     SegGoal cfg a rd evs s2 ∧
     (∀ X : A, X.mods = a.mods → X.fail = a.fail → Spec.checkLoggerWaited cfg X rd evs = X) ∧
-    Spec.checkData cfg (Spec.afterBuf cfg a rd) rd.h evs = Spec.afterBuf cfg a rd := by
+    Spec.checkData cfg (Spec.afterBuf cfg a rd) rd.h evs = Spec.afterBuf cfg a rd ∧
+    Spec.checkAcks cfg (Spec.afterBuf cfg a rd) rd.uid false evs = Spec.afterBuf cfg a rd := by
   rw [readOne_whole cfg s rd inv.top.good.ok m hm hb, pm_data cfg _ _ _ hc hd hs hn hr] at q
   obtain ⟨Z, hZ, hseg⟩ := Spec.segment_data cfg a rd evs am hget hal hb hc hd hs hn hr
   obtain ⟨fr, hfr⟩ : ∃ fr : Frame, fr = Frame.mk rd.h.mtype rd.h.src rd.h.dest rd.h.destHost rd.h.nbytes.toNat (.data rd.h.k) :=
@@ -325,7 +326,8 @@ theorem seg_data (hn : (rd.h.mtype == cfg.mtSetName) = false) (hr : (rd.h.mtype 
     ((ext_others hdata).trans (core_others hZ)).trans (ext_others (dep_ext hs0 t0 n q evs he
       (hdata.core.trans (hZ.mono (by simp))) none dt.dep (fun u hu => by cases hu)))
   exact ⟨segGoal_of hseg rfl (seg_close hs0 t0 n q evs he hW),
-    fun X hXm hXf => Spec.checkLoggerWaited_of_c01 cfg X (Spec.afterBuf cfg a rd) rd evs hXm hXf c3, hdataEq⟩
+    fun X hXm hXf => Spec.checkLoggerWaited_of_c01 cfg X (Spec.afterBuf cfg a rd) rd evs hXm hXf c3, hdataEq,
+    Spec.checkAcks_false_ok cfg _ rd.uid evs hnil⟩
 
 end data
 
